@@ -117,6 +117,10 @@ def gen_doc(rng, *, kern_only=False, max_spines=4, splits=True, core=False, comm
         per_cell = rng.random() < 0.4      # different tokens in different (sub-)spines, e.g. a clef change in one sub-spine only
         if per_cell:
             p_kern = 0.6
+            if not core and choices in (CLEFS, KEYSIGS, METERS, METSYMS) and rng.random() < 0.4:
+                # a MIXED signature line: a clef in one spine, a key signature or a meter in another
+                choices = CLEFS + KEYSIGS + METERS + METSYMS
+                g.flags.add('mixed-signature-row')
         row(lambda i, sp, ht: Cell((rng.choice(choices) if per_cell else tok) if rng.random() < (p_kern if is_kernlike(ht) else p_other) else '*',
                                    'interp', sp, ht))
 
